@@ -123,7 +123,9 @@ def dyn_contracts(u, ID, lw, be, ety):
     val = f.p[1]
     L0 = "OLD((unsigned long)%s)" % LEN(vw)
     pre = [OBJ(p, rec)] + vw.wf() + [ASSUME("%d <= sbv_n" % lw), ASSUME("(unsigned long)%s < %dUL" % (LEN(vw), MAXV))]
-    add(f, "push_back", pre, [("new-size-fits-or-reported", "%d + (unsigned long)%s + 1 <= sbv_n" % (lw, L0))] + lenbytes(vw, "%s + 1" % L0) + [("appended-element", "(uint8_t)%s[%d + (unsigned long)%s] == (uint8_t)%s" % (vw.begin, lw, L0, val))],
+    add(f, "push_back", pre + [ASSUME("sbv_k < sbv_n && sbv_k + %d < sbv_n" % lw)], [("new-size-fits-or-reported", "%d + (unsigned long)%s + 1 <= sbv_n" % (lw, L0))] + lenbytes(vw, "%s + 1" % L0) +
+        [("appended-element", "(uint8_t)%s[%d + (unsigned long)%s] == (uint8_t)%s" % (vw.begin, lw, L0, val)),
+         ("existing-elements-unchanged", "SPEC_IMPLIES(sbv_k < %s, (uint8_t)%s[%d + sbv_k] == OLD((uint8_t)%s[%d + sbv_k]))" % (L0, vw.begin, lw, vw.begin, lw))], ghosts=GH + [("unsigned long", "sbv_k")],
         assigns=["%d <= sbv_n && %d + (unsigned long)%s + 1 <= sbv_n: __CPROVER_object_upto(%s, %d + (unsigned long)%s + 1)" % (lw, lw, LEN(vw), vw.begin, lw, LEN(vw))], props={"C13", "C01", "C10"})
 
     # ---------- element-moving mutators: structure (unbounded, libc replaced) and content (bounded)
